@@ -237,6 +237,8 @@ structure CInv (ch : Nat) (t : List Bunch × List Bunch × Int) (relL : List Int
   homo : ∀ last, t.1.getLast? = some last → ∀ f ∈ t.1, f.bReliable = last.bReliable
   part : ∀ f ∈ t.1, f.chIndex = ch
   queue : ∀ q ∈ t.2.1, q.chIndex = ch ∧ q.bReliable = true
+  /-- the out-of-order queue stays below `UTCP_RELIABLE_BUFFER` -/
+  qlen : t.2.1.length < reliableBuffer
 
 structure RecvInv (c : Conn) : Prop where
   chans : ∀ ch t, chanRecv c ch = some t → CInv ch t (relLog ch c.log)
@@ -338,7 +340,7 @@ theorem cinv_keep (ch : Nat) (P Q : List Bunch) (r : Int) (relL : List Int) (b :
   by_cases hr : b.bReliable = true
   · simp only [hr, if_true]
     have hb := hn hr
-    refine ⟨h.dl.mono (by simp only; omega), ?_, ?_, h.homo, h.part, h.queue⟩
+    refine ⟨h.dl.mono (by simp only; omega), ?_, ?_, h.homo, h.part, h.queue, h.qlen⟩
     · intro last hl hlr hls
       have hmem : last ∈ P := List.mem_of_getLast? hl
       have := h.bound last hmem hlr
@@ -349,7 +351,7 @@ theorem cinv_keep (ch : Nat) (P Q : List Bunch) (r : Int) (relL : List Int) (b :
 
 /-- the fragment list is emptied (discarded group) -/
 theorem cinv_clear (ch : Nat) (P Q : List Bunch) (r r' : Int) (relL : List Int) (h : CInv ch (P, Q, r) relL) (hr : r ≤ r') : CInv ch ([], Q, r') relL :=
-  ⟨h.dl.mono hr, by intro last hl; simp at hl, by intro f hf; simp at hf, by intro last hl; simp at hl, by intro f hf; simp at hf, h.queue⟩
+  ⟨h.dl.mono hr, by intro last hl; simp at hl, by intro f hf; simp at hf, by intro last hl; simp at hl, by intro f hf; simp at hf, h.queue, h.qlen⟩
 
 /-- an initial fragment starts a new group -/
 theorem cinv_start (ch : Nat) (P Q : List Bunch) (r : Int) (relL : List Int) (b : Bunch) (h : CInv ch (P, Q, r) relL)
@@ -358,7 +360,7 @@ theorem cinv_start (ch : Nat) (P Q : List Bunch) (r : Int) (relL : List Int) (b 
   by_cases hr : b.bReliable = true
   · simp only [hr, if_true]
     have hb := hn hr
-    refine ⟨h.dl.mono (by simp only; omega), ?_, ?_, ?_, ?_, h.queue⟩
+    refine ⟨h.dl.mono (by simp only; omega), ?_, ?_, ?_, ?_, h.queue, h.qlen⟩
     · intro last hl _ _
       simp only [relOf_single_rel ch b hr hc]
       exact h.dl.snoc (by simp only; omega)
@@ -367,7 +369,7 @@ theorem cinv_start (ch : Nat) (P Q : List Bunch) (r : Int) (relL : List Int) (b 
     · intro f hf; simp at hf; subst hf; exact hc
   · have hr' : b.bReliable = false := by simpa using hr
     simp only [hr', Bool.false_eq_true, if_false]
-    refine ⟨h.dl, ?_, ?_, ?_, ?_, h.queue⟩
+    refine ⟨h.dl, ?_, ?_, ?_, ?_, h.queue, h.qlen⟩
     · intro last hl hlr; simp at hl; subst hl; simp [hr'] at hlr
     · intro f hf hfr; simp at hf; subst hf; simp [hr'] at hfr
     · intro last hl f hf; simp at hl hf; subst hl; subst hf; rfl
@@ -391,7 +393,7 @@ theorem cinv_append (ch : Nat) (P Q : List Bunch) (r : Int) (relL : List Int) (b
       unfold seqMatches at hseq; simp only [hr, if_true, beq_iff_eq] at hseq; omega
     have hold := h.live last hl hlr hls
     simp only at hold
-    refine ⟨h.dl.mono (by simp only; omega), ?_, ?_, ?_, ?_, h.queue⟩
+    refine ⟨h.dl.mono (by simp only; omega), ?_, ?_, ?_, ?_, h.queue, h.qlen⟩
     · intro l2 hl2 _ _
       simp only [relOf_append, relOf_single_rel ch b hr hc, ← List.append_assoc]
       exact hold.snoc (by omega)
@@ -413,7 +415,7 @@ theorem cinv_append (ch : Nat) (P Q : List Bunch) (r : Int) (relL : List Int) (b
       · exact hc
   · have hr' : b.bReliable = false := by simpa using hr
     simp only [hr', Bool.false_eq_true, if_false]
-    refine ⟨h.dl, ?_, ?_, ?_, ?_, h.queue⟩
+    refine ⟨h.dl, ?_, ?_, ?_, ?_, h.queue, h.qlen⟩
     · intro l2 hl2 hl2r
       rw [hlast'] at hl2; simp at hl2; subst hl2; simp [hr'] at hl2r
     · intro f hf hfr
@@ -436,7 +438,7 @@ theorem cinv_append (ch : Nat) (P Q : List Bunch) (r : Int) (relL : List Int) (b
 /-- a completed group is handed to the application and the fragment list emptied -/
 theorem cinv_deliver (ch : Nat) (G Q : List Bunch) (r : Int) (relL : List Int) (h : CInv ch (G, Q, r) relL)
     (hcur : ∀ last, G.getLast? = some last → last.bReliable = true → last.chSeq = r) : CInv ch ([], Q, r) (relL ++ relOf ch G) := by
-  refine ⟨?_, by intro last hl; simp at hl, by intro f hf; simp at hf, by intro last hl; simp at hl, by intro f hf; simp at hf, h.queue⟩
+  refine ⟨?_, by intro last hl; simp at hl, by intro f hf; simp at hf, by intro last hl; simp at hl, by intro f hf; simp at hf, h.queue, h.qlen⟩
   cases hg : G.getLast? with
   | none =>
     have : G = [] := by simpa using hg
@@ -457,7 +459,7 @@ theorem cinv_single (ch : Nat) (P Q : List Bunch) (r : Int) (relL : List Int) (b
   · simp only [hr, if_true] at hk ⊢
     have hb := hn hr
     rw [relOf_single_rel ch b hr hc]
-    refine ⟨h.dl.snoc (by simp only; omega), ?_, hk.bound, hk.homo, hk.part, hk.queue⟩
+    refine ⟨h.dl.snoc (by simp only; omega), ?_, hk.bound, hk.homo, hk.part, hk.queue, hk.qlen⟩
     intro last hl hlr hls
     have := h.bound last (List.mem_of_getLast? hl) hlr
     simp only at hls this; omega
@@ -629,15 +631,35 @@ theorem dispatchWaiting_inv (fuel : Nat) : ∀ (c : Conn) (ch : Nat), RecvInv c 
           dsimp only
           have hb := hci.queue b (by show b ∈ x.inRec; rw [hq]; exact List.mem_cons_self)
           have h1 : RecvInv (c.setChan ch { x with inRec := rest }) := by
-            refine setChan_recvinv c ch x _ h hx ⟨hci.dl, hci.live, hci.bound, hci.homo, hci.part, ?_⟩
-            intro q hqm
-            exact hci.queue q (by show q ∈ x.inRec; rw [hq]; exact List.mem_cons_of_mem _ hqm)
+            refine setChan_recvinv c ch x _ h hx ⟨hci.dl, hci.live, hci.bound, hci.homo, hci.part, ?_, ?_⟩
+            · intro q hqm
+              exact hci.queue q (by show q ∈ x.inRec; rw [hq]; exact List.mem_cons_of_mem _ hqm)
+            · have := hci.qlen
+              simp only [recvPart] at this ⊢
+              rw [hq] at this
+              simp only [List.length_cons] at this
+              omega
           refine ih _ _ (receivedNextBunch_inv _ b h1 ?_)
           intro x' hx' _
           rw [hb.1, getChan_setChan_self] at hx'
           cases hx'
           simp only
           simpa using hseq
+
+theorem enqueue_length' (b : Bunch) : ∀ (q q' : List Bunch), enqueueIncoming b q = some q' → q'.length = q.length + 1 := by
+  intro q
+  induction q with
+  | nil => intro q' h; simp [enqueueIncoming] at h; subst h; rfl
+  | cons a rest ih =>
+    intro q' h
+    unfold enqueueIncoming at h
+    split at h
+    · simp at h
+    · split at h
+      · simp at h; subst h; rfl
+      · cases he : enqueueIncoming b rest with
+        | none => simp [he] at h
+        | some q'' => simp [he] at h; subst h; simp [ih q'' he]
 
 theorem enqueue_mem' (b : Bunch) : ∀ (q q' : List Bunch), enqueueIncoming b q = some q' → ∀ y ∈ q', y = b ∨ y ∈ q := by
   intro q
@@ -674,12 +696,15 @@ theorem processBunch_inv (c : Conn) (x : Channel) (b : Bunch) (h : RecvInv c) (h
       split
       · exact h.of_rsame (emit_rsame _ _ rfl)
       · split
-        · rename_i q hq
-          refine setChan_recvinv c _ x _ h hx ⟨hci.dl, hci.live, hci.bound, hci.homo, hci.part, ?_⟩
-          intro y hy
-          rcases enqueue_mem' b x.inRec q hq y hy with rfl | hy
-          · simp only [Bool.and_eq_true] at hahead; exact ⟨rfl, hahead.1⟩
-          · exact hci.queue y hy
+        · rename_i hroom q hq
+          refine setChan_recvinv c _ x _ h hx ⟨hci.dl, hci.live, hci.bound, hci.homo, hci.part, ?_, ?_⟩
+          · intro y hy
+            rcases enqueue_mem' b x.inRec q hq y hy with rfl | hy
+            · simp only [Bool.and_eq_true] at hahead; exact ⟨rfl, hahead.1⟩
+            · exact hci.queue y hy
+          · simp only [recvPart]
+            rw [enqueue_length' b x.inRec q hq]
+            omega
         · exact h.of_rsame (emit_rsame _ _ rfl)
     · rename_i hnext
       refine receivedNextBunch_inv c b h ?_
@@ -709,7 +734,7 @@ theorem createChan_inv (c : Conn) (ch : Nat) (h : RecvInv c) (hn : c.getChan ch 
     rw [chanRecv_setChan] at ht; cases ht
     rw [relLog_setChan, hpre.log ch, habs]
     exact ⟨Below.nil _, by intro last hl; simp [recvPart] at hl, by intro f hf; simp [recvPart] at hf, by intro last hl; simp [recvPart] at hl,
-      by intro f hf; simp [recvPart] at hf, by intro q hq; simp [recvPart] at hq⟩
+      by intro f hf; simp [recvPart] at hf, by intro q hq; simp [recvPart] at hq, by simp [recvPart, reliableBuffer, Gen.UTCP_RELIABLE_BUFFER]⟩
   · intro hnone; rw [chanRecv_setChan] at hnone; cases hnone
 
 theorem getOrCreateChan_inv (c : Conn) (b : Bunch) (inc : Bool) (h : RecvInv c) :
